@@ -24,8 +24,8 @@ EXPLANATION = (
     'on every access (no cached copy), and the two ALTER statements split its columns at len(col1) against col1 / col2.')
 RULE_TEXT = 'one obligation per kind (dispatch), per filter, per template hole role, per join-table constructor argument'
 ASSUMPTIONS = ['decides the structural dispatch and template roles; the DDL text for arbitrary reference sets is not decided']
-ENGINES = ['pyindex', 'paths', 'strctx']
-TECHNIQUE = 'static analysis (ast): dispatch-table evaluation over the kind constants, sibling-dispatch agreement, complementary-filter rule, string-template hole provenance (roles), constructor-argument obligations'
+ENGINES = ['pyindex', 'paths', 'strctx', 'strval', 'peval']
+TECHNIQUE = 'static analysis (ast): dispatch-table evaluation over the kind constants, sibling-dispatch agreement, complementary-filter rule, string-template hole provenance (roles), constructor-argument obligations; partial evaluation per reference kind; abstract string evaluation of the generators'
 
 REFMOD = 'pydbml.renderer.sql.default.reference'
 WANT = {'MANY_TO_ONE': ('col1', 'col2'), 'ONE_TO_ONE': ('col1', 'col2'), 'ONE_TO_MANY': ('col2', 'col1')}
